@@ -122,26 +122,54 @@ func run(p prog, seed int64) {
 	lg.SetOutput(io.Discard)
 	ma := tubes.Client(n.A, &tubes.Config{Log: logrus.NewEntry(lg), Timeout: p.tmo})
 	mb := tubes.Server(n.B, &tubes.Config{Log: logrus.NewEntry(lg), Timeout: p.tmo})
-	ev := func(kv ...any) { w.Ev("call", append([]any{"p", p.id, "loss", p.loss, "tmo", p.tmo.Milliseconds()}, kv...)...) }
+	var taID byte
+	// initDone: has the answer to A's tube request been delivered (without it A's tube never leaves "created")
+	initDone := func() string {
+		fr, ac := n.Snapshot()
+		for i, f := range fr {
+			if f.Dir == 1 && f.RESP && f.REL && f.Tube == taID && !ac[i].Drop {
+				return "yes"
+			}
+		}
+		return "no"
+	}
+	ev := func(kv ...any) {
+		w.Ev("call", append([]any{"p", p.id, "loss", p.loss, "tmo", p.tmo.Milliseconds(), "ainit", initDone()}, kv...)...)
+	}
 	ta, err := ma.CreateReliableTube(5)
+	if err == nil {
+		taID = ta.GetID()
+	}
 	if err != nil {
 		ev("op", "create", "end", "A", "res", errs(err), "ms", 0, "ret", "yes")
 		return
 	}
+	var u *tubes.Unreliable
+	if p.id%2 == 0 {
+		u, _ = ma.CreateUnreliableTube(6)
+	}
 	var tb *tubes.Reliable
-	acc := make(chan tubes.Tube, 1)
+	acc := make(chan *tubes.Reliable, 1)
 	go func() {
-		if t, err := mb.Accept(); err == nil {
-			acc <- t
+		for {
+			t, err := mb.Accept()
+			if err != nil {
+				return
+			}
+			if r, ok := t.(*tubes.Reliable); ok {
+				acc <- r
+				return
+			}
 		}
 	}()
 	select {
-	case t := <-acc:
-		tb = t.(*tubes.Reliable)
+	case tb = <-acc:
 	case <-time.After(700 * time.Millisecond):
 	}
 	stopped := map[string]bool{}
 	closedLocally := map[string]bool{}
+	wrote := map[string]int{}
+	readN := map[string]int{}
 	var mu sync.Mutex
 	payload := bytes.Repeat([]byte("x"), 5000)
 	var rngMu sync.Mutex
@@ -156,7 +184,13 @@ func run(p prog, seed int64) {
 				if t == nil {
 					continue
 				}
-				res, ms, ret := timed(10*time.Second, func() string { _, err := t.Write(payload); return errs(err) })
+				res, ms, ret := timed(10*time.Second, func() string {
+					k, err := t.Write(payload)
+					mu.Lock()
+					wrote[end] += k
+					mu.Unlock()
+					return errs(err)
+				})
 				ev("op", "write", "end", end, "res", res, "ms", ms, "ret", yn(ret))
 			case "read":
 				if t == nil {
@@ -164,7 +198,10 @@ func run(p prog, seed int64) {
 				}
 				res, ms, ret := timed(10*time.Second, func() string {
 					t.SetReadDeadline(time.Now().Add(400 * time.Millisecond))
-					_, err := t.Read(make([]byte, 100))
+					k, err := t.Read(make([]byte, 100))
+					mu.Lock()
+					readN[end] += k
+					mu.Unlock()
 					return errs(err)
 				})
 				ev("op", "read", "end", end, "res", res, "ms", ms, "ret", yn(ret))
@@ -190,8 +227,12 @@ func run(p prog, seed int64) {
 				mu.Lock()
 				stopped[end] = true
 				mu.Unlock()
-				_, ms, ret := timed(12*time.Second, func() string { m.Stop(); return "ok" })
-				ev("op", "stop", "end", end, "res", "ok", "ms", ms, "ret", yn(ret))
+				// whichever caller returns, the shutdown has completed: the transport is closed at that instant
+				tc, ms, ret := timed(12*time.Second, func() string {
+					m.Stop()
+					return yn(map[string]*scriptconn.End{"A": n.A, "B": n.B}[end].Closed())
+				})
+				ev("op", "stop", "end", end, "res", "ok", "ms", ms, "ret", yn(ret), "tclosed", tc)
 			}
 		}
 	}
@@ -229,15 +270,50 @@ func run(p prog, seed int64) {
 		}
 		_, werr := t.Write([]byte("late"))
 		var rerr error
+		got := 0
 		for k := 0; k < 50 && rerr == nil; k++ {
-			_, rerr = t.Read(make([]byte, 4096))
+			var c int
+			c, rerr = t.Read(make([]byte, 4096))
+			got += c
 		}
-		ev("op", "postclose", "end", end, "res", errs(werr)+"/"+errs(rerr), "ms", 0, "ret", "yes", "wfail", yn(werr != nil), "reof", yn(rerr == io.EOF))
+		mu.Lock()
+		peer := map[string]string{"A": "B", "B": "A"}[end]
+		pw, rb := wrote[peer], readN[end]
+		mu.Unlock()
+		// on a faithful network everything the peer wrote before closing was delivered in order before its FIN:
+		// what was not read during the program is still buffered and must be returned before end-of-stream
+		dataok := p.loss != "none" || got+rb == pw
+		ev("op", "postclose", "end", end, "kind", "reliable", "res", errs(werr)+"/"+errs(rerr), "ms", 0, "ret", "yes", "wfail", yn(werr != nil), "reof", yn(rerr == io.EOF),
+			"dataok", yn(dataok), "peerwrote", pw, "got", got+rb)
+	}
+	// the unreliable tube created at the start: close it, then the post-close clause (a read without any
+	// deadline must end with end-of-stream promptly, a write must fail)
+	if u != nil {
+		if p.loss == "none" {
+			timed(2*time.Second, func() string { _, _, err := u.WriteMsgUDP([]byte("datagram"), nil, nil); return errs(err) })
+		}
+		res, ms, ret := timed(10*time.Second, func() string { return errs(u.Close()) })
+		ev("op", "close", "end", "A", "res", res, "ms", ms, "ret", yn(ret), "kind", "unreliable")
+		if ret {
+			_, _, wret := timed(5*time.Second, func() string { u.WaitForClose(); return "ok" })
+			rres, _, rret := timed(3*time.Second, func() string {
+				// buffered datagrams (the peer's FIN surfaces as an empty one) come first, then end-of-stream
+				var err error
+				for k := 0; k < 200 && err == nil; k++ {
+					_, _, _, _, err = u.ReadMsgUDP(make([]byte, 100), nil)
+				}
+				return errs(err)
+			})
+			wres, _, wr := timed(3*time.Second, func() string { _, _, err := u.WriteMsgUDP([]byte("late"), nil, nil); return errs(err) })
+			ev("op", "postclose", "end", "A", "kind", "unreliable", "res", wres+"/"+rres, "ms", 0, "ret", yn(rret && wret && wr), "wfail", yn(wr && wres != "ok"), "reof", yn(rret && rres == "eof"),
+				"dataok", "yes", "peerwrote", 0, "got", 0)
+		}
 	}
 	// every muxer is stopped at the end; then no tube goroutine may be left
 	for end, m := range map[string]*tubes.Muxer{"A": ma, "B": mb} {
-		_, ms, ret := timed(12*time.Second, func() string { m.Stop(); return "ok" })
-		ev("op", "finalstop", "end", end, "res", "ok", "ms", ms, "ret", yn(ret))
+		e := map[string]*scriptconn.End{"A": n.A, "B": n.B}[end]
+		tc, ms, ret := timed(12*time.Second, func() string { m.Stop(); return yn(e.Closed()) })
+		ev("op", "finalstop", "end", end, "res", "ok", "ms", ms, "ret", yn(ret), "tclosed", tc)
 	}
 }
 
